@@ -39,7 +39,8 @@ ASSUMPTIONS = ["'a single line' = no CR / LF in the rendered record"]
 OUTSIDE = ["gevent/eventlet", "custom logger classes", "the error log", "syslog / dogstatsd transports"]
 
 REQ = b"GET /a?b HTTP/1.1\r\nHost: h\r\n\r\n"
-MODES = ["iter", "write", "file", "filenofd", "raise_before", "raise_first", "raise_mid", "late_error", "early_error"]
+MODES = ["iter", "write", "file", "filenofd", "raise_before", "raise_first", "raise_mid", "late_error", "early_error",
+         "close_raises", "head", "s304"]
 
 
 def _serve(kind, w, c):
@@ -51,10 +52,10 @@ def _serve(kind, w, c):
 
 def once(mi: int, cl: int, n1: int, n2: int) -> bool:
     """
-    pre: 0 <= mi <= 8 and -1 <= cl <= 3 and 0 <= n1 <= 2 and 0 <= n2 <= 2
+    pre: 0 <= mi <= 11 and -1 <= cl <= 3 and 0 <= n1 <= 2 and 0 <= n2 <= 2
     post: __return__
     """
-    mode = MODES[pick(mi, 0, 8)]
+    mode = MODES[pick(mi, 0, 11)]
     cl, n1, n2 = pick(cl, -1, 3), pick(n1, 0, 2), pick(n2, 0, 2)
     short = cl > n1 + n2               # the application declares more than it delivers: framing is its problem (C02 assumes
     if short and cl > n1 + n2 + 1:     # it away), but the log must still report what was really sent
@@ -80,6 +81,27 @@ def once(mi: int, cl: int, n1: int, n2: int) -> bool:
                 pass
             completed.append(1)
             return [chunks[1]] if mode == "late_error" else chunks
+        if mode == "close_raises":
+            # the body is produced normally; the iterable's close() (called by the server after the last piece) fails
+            class It:
+                def __iter__(self_):
+                    return iter(chunks)
+
+                def close(self_):
+                    raise ValueError("close() failed")
+            start_response("200 OK", hdrs)
+            completed.append(1)
+            return It()
+        if mode == "s304":
+            # a conditional GET answered 304 that keeps the representation's Content-Length, no body
+            start_response("304 Not Modified", hdrs)
+            completed.append(1)
+            return []
+        if mode == "head":
+            # HEAD: the head of the GET response (Content-Length of the representation), no body
+            start_response("200 OK", hdrs)
+            completed.append(1)
+            return []
         if mode == "write":
             wr = start_response("200 OK", hdrs)
             for ch in chunks:
@@ -107,9 +129,20 @@ def once(mi: int, cl: int, n1: int, n2: int) -> bool:
     cfg = W.make_cfg(keepalive=2)
     mk = {"sync": W.sync_worker, "gthread": W.thread_worker, "async": W.async_worker}[kind]
     w = mk(cfg, app)
-    c = RecSock([REQ])
+    head = mode == "head"
+    c = RecSock([REQ.replace(b"GET ", b"HEAD ", 1) if head else REQ])
     _serve(kind, w, c)
     recs = w.log.access_calls
+    if mode in ("head", "s304") and completed:
+        # nothing but the head goes out: the record says 0 body bytes, whatever Content-Length was declared
+        if len(recs) != 1:
+            return False
+        try:
+            rs = hr.parse_stream(c.wire(), [True])
+        except hr.Bad:
+            return False
+        w.log.render = True
+        return len(rs) == 1 and recs[0][1] == 0 and recs[0][0].startswith(str(rs[0]["code"])) and _logged_bytes(w, recs) == 0
     if completed:
         if len(recs) != 1:
             return False
@@ -130,6 +163,16 @@ def once(mi: int, cl: int, n1: int, n2: int) -> bool:
     # the application raised: the property only bounds records for requests the server itself rejects; the worker must
     # survive and close the connection
     return c.closed >= 1 and w.alive
+
+
+def _logged_bytes(w, recs):
+    """%(B)s of the record as the real Logger.atoms() computes it from the response object that was logged"""
+    lg = mk_logger()
+    resp = SimpleNamespace(status=recs[0][0], sent=recs[0][1], response_length=recs[0][2], headers=[])
+    atoms = lg.atoms(resp, SimpleNamespace(headers=[]), {"REQUEST_METHOD": "GET", "RAW_URI": "/", "SERVER_PROTOCOL": "HTTP/1.1"},
+                     datetime.timedelta(seconds=1))
+    b = atoms["B"]
+    return 0 if b in (None, "-") else int(b)
 
 
 def once_twin(mi: int, cl: int, n1: int, n2: int) -> bool:
@@ -306,7 +349,7 @@ _LINE = [("authorization", "u"), ("raw_uri", "r"), ("raw_uri", "{raw_uri}e"), ("
 
 OBLIGATIONS = [
     Ob("C19.once", "once", cases=[{"kind": k} for k in ("sync", "gthread", "async")], timeout=1800,
-       bound="9 application behaviours x Content-Length{none,0..3} x 2 chunks of 0..2 bytes x each worker class"),
+       bound="12 application behaviours (incl. close() raising, HEAD, 304 with Content-Length) x Content-Length{none,0..3} x 2 chunks of 0..2 bytes x each worker class"),
     Ob("C19.once.twin", "once_twin", cases=[{"kind": "sync"}], expect="refute", timeout=300),
     Ob("C19.rejected", "rejected", cases=[{"kind": k} for k in ("sync", "gthread", "async")], timeout=600,
        bound="6 malformed / truncated heads x each worker class: no application call, at most one access record"),
